@@ -28,7 +28,7 @@ theorem C06_changed_invalidates : (o : Op) → (s : KSt) → (f : String) → s.
     | none => rfl
     | some s' =>
       exfalso
-      obtain ⟨hvg, _, _, _, _, _, made, s2, _, hs2, _⟩ := replayOp_buildFile_some _ _ _ _ _ _ _ _ _ _ _ _ _ hr
+      obtain ⟨hvg, _, _, _, _, _, made, s2, _, _, hs2, _⟩ := replayOp_buildFile_some _ _ _ _ _ _ _ _ _ _ _ _ _ hr
       simp only [Op.mentions, Bool.or_eq_true, beq_iff_eq] at hm
       rcases hm with rfl | hm
       · rw [hv] at hvg; cases hvg
